@@ -16,6 +16,16 @@ pub mod telemetry;
 #[cfg(test)]
 pub mod test_mock;
 
+/// Verification hook H6 (compiled only with `--cfg azure_guestproxyagent_verif`): the verification
+/// drivers are compiled as a module of this crate, so that they keep working when an item they call
+/// becomes `pub(crate)`.  The file is named by the VERIF_DRIVERS_RS environment variable at build time.
+#[cfg(azure_guestproxyagent_verif)]
+extern crate self as gpa;
+#[cfg(azure_guestproxyagent_verif)]
+pub mod verif_drivers {
+    include!(env!("VERIF_DRIVERS_RS"));
+}
+
 use common::cli::{Commands, CLI};
 use common::constants;
 use common::helpers;
